@@ -4,30 +4,42 @@
 
    [robsd_clean] (Inv/PurgeDefs.v) is the model of robsd-clean + util.sh purge
    on an abstract tree (entries = path below the invocation root + node), with
-   the listing model of C15 inside; the whitelist, the +1 compensation and the
-   tr characters are regenerated from util.sh (gen/Gen_Util.v).  The
-   specification (Inv/PurgeSpec.v) speaks about the tree before, the tree
-   after, the retention [n] = count argument or configured keep, and the
-   invocation that is really running ([running], given independently of the
-   lock file's spelling).
+   the listing model of C15 inside; the whitelist, the +1 compensation, the
+   tr characters (util.sh) and the count default, the exit status for retention
+   0, the keep-attic value and the messages (robsd-clean) are regenerated from
+   the sources (gen/Gen_Util.v).  The specification (Inv/PurgeSpec.v) speaks
+   about the tree before, the tree after, the retention [n] = count argument or
+   configured keep, and the invocation that is really running ([running], given
+   independently of the lock file's spelling).
 
    Quantifiers: every well-formed tree (any number of invocations, several per
    day, stray files and directories, any attic content), every root string,
    every lock file content, every keep / count / keep-attic, every qsort.
 
-   FULL STATEMENT of the kept set: for every lock file and running invocation,
-     invocation (tree after) v  <->  In v (kept_of names running n).
-   The faithful model violates it when the lock file does not name the running
-   invocation by exactly the path robsd-ls prints (C16_kept_set_refuted: a
-   stale lock keeps one invocation less than N; a lock spelled differently,
-   as `robsd -r` writes it when robsddir is configured with a trailing slash,
-   lets the running invocation itself be moved away).  Everything is proved
-   under the guard [lock_consistent] (C16_*_partial).
+   KEPT SET.  C16_kept_set_total says what the model keeps for EVERY lock file.
+   The statement of the property - invocation (tree after) v <-> In v (kept_of
+   names running n) - holds under the guard [lock_consistent]
+   (C16_kept_set_partial); the guard is discharged for the lock file a new
+   invocation writes (C16_lock_consistent_discharged).  Outside the guard, for
+   EVERY lock whose first line is not the printed path of an invocation (stale,
+   hidden, elsewhere, or the running invocation spelled differently as
+   `robsd -r` writes it when robsddir is not canonical) the n-1 newest are kept
+   and a running invocation that is not among them is archived
+   (C16_kept_set_outside_guard; C16_kept_set_refuted are two witnesses; known
+   findings clean-stale-lock-keeps-one-less, clean-lock-spelled-differently).
+
+   ATTIC.  C16_attic_complete_partial: one destination per removed invocation,
+   every whitelisted entry outside tmp arrives there with its content, nothing
+   else is new - under the guard that the destinations of different
+   invocations are apart (C16_attic_names: true for names Y-M-D.X, which is
+   what build_id hands out).  C16_attic_complete_refuted: directories named a-a
+   and a lose a report.  C16_oracle_accepts_model ties the executable oracle
+   that the harness applies to the real robsd-clean to these theorems.
 
    This claim is PARTIAL in a second sense: the tie runs bash and GNU userland
    behind stand-ins instead of ksh and the BSD userland. *)
 From Coq Require Import String.
-From Robsd Require Import Inv.PurgeSpec Inv.PurgeProofs Inv.LsProofs.
+From Robsd Require Import Inv.PurgeSpec Inv.PurgeProofs Inv.LsProofs Inv.PurgeComplete Inv.PurgeOracle Inv.PurgeTotal Inv.NameDefs.
 Local Open Scope N_scope.
 
 (* retention 0 (no count or count 0, and keep 0 or unset): nothing happens *)
@@ -112,6 +124,134 @@ Proof.
 Qed.
 Print Assumptions C16_removed_attic_rest_partial.
 
+(* ---- the kept set without any guard: for every lock file the root afterwards
+   holds exactly the invocations purge did not select - the listing minus the
+   entry whose printed path is the lock's first line, from position n (n+1
+   when the lock file has no usable first line) ---- *)
+Theorem C16_kept_set_total : forall sortf rootstr f lock keep_conf count ka,
+  sorts sortf -> wf_tree f -> effective_keep keep_conf count <> 0%nat ->
+  exists names, newest_first f names /\
+    let n := effective_keep keep_conf count in
+    let after := snd (robsd_clean sortf rootstr keep_conf count ka lock f) in
+    forall v, invocation after v <->
+              In v names /\ ~ In v (victim_names_total rootstr names (running_builddir lock) n).
+Proof.
+  exact (fun sortf rootstr f lock keep_conf count ka Hs =>
+    kept_set_total sortf Hs rootstr f lock keep_conf count ka).
+Qed.
+Print Assumptions C16_kept_set_total.
+
+(* outside the guard, for ALL lock files whose first line is not the printed
+   path of an invocation of the root: the n-1 newest invocations are left, and
+   an invocation r - running or not - that is not among them is gone *)
+Theorem C16_kept_set_outside_guard : forall sortf rootstr f lock b keep_conf count ka,
+  sorts sortf -> wf_tree f -> effective_keep keep_conf count <> 0%nat ->
+  running_builddir lock = Some b -> (forall v, invocation f v -> mkpath rootstr v <> b) ->
+  exists names, newest_first f names /\
+    let n := effective_keep keep_conf count in
+    let after := snd (robsd_clean sortf rootstr keep_conf count ka lock f) in
+    (forall v, invocation after v <-> In v (firstn (n - 1) names)) /\
+    length (firstn (n - 1) names) = Nat.min (n - 1) (length names).
+Proof.
+  exact (fun sortf rootstr f lock b keep_conf count ka Hs =>
+    kept_set_unlisted_lock sortf Hs rootstr f lock b keep_conf count ka).
+Qed.
+Print Assumptions C16_kept_set_outside_guard.
+
+(* the guard is met by the producer: robsd computes BUILDDIR as
+   "${ROBSDDIR}/$(build_id ...)" and lock_acquire writes that string and a
+   newline into .running - exactly the path robsd-ls prints; and by the absence
+   of a lock when nothing runs.  (Not met: a lock left behind by a crash, and
+   `-r <dir>` with a robsddir that readlink -f respells.) *)
+Theorem C16_lock_consistent_discharged : forall rootstr f id,
+  (nonl rootstr -> nonul rootstr -> nonl id -> nonul id -> invocation f id ->
+   lock_consistent rootstr (lock_written (mkpath rootstr id)) (Some id) f) /\
+  lock_consistent rootstr None None f.
+Proof.
+  exact (fun rootstr f id => conj (lock_consistent_new_invocation rootstr f id) (lock_consistent_no_lock rootstr f)).
+Qed.
+Print Assumptions C16_lock_consistent_discharged.
+
+(* ---- the attic holds AT LEAST the whitelisted content, with the content: there
+   is one destination [B v] per removed invocation v - attic/Y/M/D.X, or
+   attic/Y/M/D.X/v when that directory existed - which is a directory
+   afterwards; every entry of v outside v/tmp whose name is on the whitelist
+   (and v's directory itself) is afterwards at B v ++ <its path below v> with
+   the same node, i.e. the same file content; every new attic entry is a
+   created parent or such a copy, at that same destination ---- *)
+Theorem C16_attic_complete_partial : forall sortf rootstr f lock running keep_conf count,
+  sorts sortf -> wf_tree f -> lock_consistent rootstr lock running f ->
+  effective_keep keep_conf count <> 0%nat ->
+  (forall v w, invocation f v -> invocation f w -> v <> w -> apart v w) ->
+  exists names B, newest_first f names /\
+    let n := effective_keep keep_conf count in
+    let kept := kept_of names running n in
+    let after := snd (robsd_clean sortf rootstr keep_conf count true lock f) in
+    (forall v, B v = attic_dst v \/ B v = attic_dst v ++ [v]) /\
+    (forall v e0, invocation f v -> ~ In v kept -> In e0 f ->
+       under [v] (f_path e0) = true -> under [v; name_tmp] (f_path e0) = false ->
+       (f_path e0 = [v] \/ spec_whitelisted (basename (f_path e0)) = true) ->
+       In (mkfs (B v ++ skipn 1 (f_path e0)) (f_node e0)) after) /\
+    (forall v, invocation f v -> ~ In v kept -> is_dir_at (B v) after = true) /\
+    (forall e, In e after -> under [name_attic] (f_path e) = true ->
+       In e f \/ exists v, (invocation f v /\ ~ In v kept) /\
+                           (created_parent v e \/ from_victim_at (B v) f v e)).
+Proof.
+  exact (fun sortf rootstr f lock running keep_conf count Hs =>
+    final_attic_complete sortf Hs rootstr f lock running keep_conf count).
+Qed.
+Print Assumptions C16_attic_complete_partial.
+
+(* without the guard: invocation directories named a-a and a (destinations
+   attic/a/a and attic/a), retention 1, a newer z: the report of a-a is
+   nowhere afterwards, attic/a/a/report is the one of a *)
+Theorem C16_attic_complete_refuted :
+  exists f, wf_tree f /\
+    In (mkfs [bs "a-a"; bs "report"] (FFile (bs "1"))) f /\
+    let after := snd (robsd_clean_exec (bs "/r") 1 None true None f) in
+    invocations_desc after = [bs "z"] /\
+    forallb (fun e => negb (node_beq (f_node e) (FFile (bs "1")))) after = true /\
+    ent_in (mkfs [bs "attic"; bs "a"; bs "a"; bs "report"] (FFile (bs "2"))) after = true /\
+    spec_ok_clean None 1 true 0 f after = false.
+Proof. exact attic_complete_refuted. Qed.
+Print Assumptions C16_attic_complete_refuted.
+
+(* YYYY-MM-DD.X -> attic/YYYY/MM/DD.X for every name Y-M-D of three non-empty
+   parts free of '-' and '/'; two different such names have destinations that
+   are apart; the names build_id hands out on a date Y-M-D are of that form *)
+Theorem C16_attic_names :
+  (forall y m d, dashfree y -> dashfree m -> dashfree d ->
+     attic_dst (y ++ 45 :: m ++ 45 :: d) = [name_attic; y; m; d]) /\
+  (forall v w, date_shaped v -> date_shaped w -> v <> w -> apart v w) /\
+  (forall y m d k, dashfree y -> dashfree m -> dashfree d ->
+     date_shaped (with_suffix (y ++ 45 :: m ++ 45 :: d) k)).
+Proof. exact (conj attic_dst_date (conj date_shaped_apart date_shaped_with_suffix)). Qed.
+Print Assumptions C16_attic_names.
+
+(* ---- the oracle the harness applies to the trees the real robsd-clean leaves
+   behind accepts every result of the model: kept set, removed exactly, nothing
+   else touched, attic content sound and complete, retention 0 a no-op.  Attic
+   clauses: for invocation names Y-M-D and no entry v/v/tmp/... ---- *)
+Theorem C16_oracle_accepts_model : forall sortf rootstr f lock running keep_conf count ka,
+  sorts sortf -> wf_tree f -> lock_consistent rootstr lock running f ->
+  (ka = true -> forall v, invocation f v -> date_shaped v) ->
+  (ka = true -> no_nested_tmp f) ->
+  let r := robsd_clean sortf rootstr keep_conf count ka lock f in
+  spec_ok_clean running (effective_keep keep_conf count) ka (fst (fst r)) f (snd r) = true.
+Proof.
+  exact (fun sortf rootstr f lock running keep_conf count ka Hs =>
+    oracle_accepts_model sortf Hs rootstr f lock running keep_conf count ka).
+Qed.
+Print Assumptions C16_oracle_accepts_model.
+
+(* the second guard is needed by the ORACLE, not by the model: v/v/tmp/report
+   is preserved by purge and the oracle takes its copy for a copy of v/tmp *)
+Theorem C16_oracle_nested_tmp_refuted :
+  exists f, wf_tree f /\ ~ no_nested_tmp f /\
+    spec_ok_clean None 1 true 0 f (snd (robsd_clean_exec (bs "/r") 1 None true None f)) = false.
+Proof. exact oracle_nested_tmp_rejected. Qed.
+Print Assumptions C16_oracle_nested_tmp_refuted.
+
 (* qsort does not matter: every sorting function gives what the driver runs *)
 Theorem C16_any_qsort : forall sortf rootstr keep_conf count ka lock f,
   sorts sortf -> wf_tree f ->
@@ -133,6 +273,18 @@ Theorem C16_util_sh_tables :
      In n [bs "comment"; bs "index.txt"; bs "report"; bs "stat.csv"; bs "step.csv"; bs "tags"]).
 Proof. exact tables_documented. Qed.
 Print Assumptions C16_util_sh_tables.
+
+(* what the translator reads out of the robsd-clean script: _keep="${1:-0}", 0
+   falls back to ${keep}, still 0 exits 0; keep-attic 1 selects purge (move to
+   the attic), anything else purge -d + rm -rf; the messages *)
+Theorem C16_robsd_clean_script :
+  (clean_count_default = 0%nat /\ clean_zero_exit = 0 /\ clean_attic_value = 1%nat /\
+   clean_msg_moving = msg_moving /\ clean_msg_to = msg_to /\ clean_msg_removing = msg_removing) /\
+  (forall keep_conf count, effective_keep keep_conf count =
+     let k := match count with Some c => c | None => clean_count_default end in
+     if Nat.eqb k clean_count_default then keep_conf else k).
+Proof. exact (conj clean_script_tie effective_keep_script). Qed.
+Print Assumptions C16_robsd_clean_script.
 
 (* non-vacuity: four invocations, the second newest running, retention 2, attic
    enabled, stray entries, earlier attic content *)
